@@ -148,7 +148,9 @@ class Ctx:
             top = os.path.join(REPO, "aldor")
             bld = os.path.join(self.scratch, "build")
             inc = ["--include=*/", "--include=Makefile*", "--include=*.am", "--include=*.in", "--include=*.m4", "--include=*.mk",
-                   "--include=config.status", "--include=configure*", "--include=libtool", "--include=amaux/***", "--exclude=*"]
+                   "--include=config.status", "--include=configure*", "--include=libtool", "--include=amaux/***",
+                   "--include=aldor/tools/unix/***",       # zacc / msgcat / atinlay: needed when axl.z or comsgdb.msg is newer than its output
+                   "--exclude=*"]
             subprocess.run(["rsync", "-a"] + inc + [top + "/", bld + "/"], check=True)
             subprocess.run(["rsync", "-a", "--exclude=test/", "--exclude=*.i", "--exclude=*.s",
                             os.path.join(top, "aldor/src") + "/", os.path.join(bld, "aldor/src") + "/"], check=True)
@@ -855,7 +857,11 @@ def main_for(pid, info, make_queries, argv=None):
     try:
         known, fixed = load_known(pid)
         extra = {}
-        queries = make_queries(ctx, extra)
+        try:
+            queries = make_queries(ctx, extra)
+        except BuildError as e:
+            log("BROKEN property=%s: could not prepare the queries: %s" % (pid, str(e)[-1500:]))
+            return 2
         queries = [q for q in queries if a.tier in q.tiers]
         if a.only:
             queries = [q for q in queries if fnmatch.fnmatch(q.name, a.only)]
